@@ -154,15 +154,17 @@ def register5(reg):
     # C11: the keyword table of a parse is the one of the configuration ACTIVE for that parse (so that the
     # normalisation under ignorecase, done per configuration, and the lookup agree)
     contract(reg, f'{K}:ParserCore._initialize_caches', ['C11', 'C10', 'C04'], {'self': 'Ctx'}, ret='None', verify=False, wf=False,
-             modifies=['self._memos', 'self._results', 'self.states.state_stack', 'self.states.callstack'],
-             ensures=['len(self.states.state_stack) == 1', 'len(self.states.callstack) == 0'],
+             modifies=['self._memos', 'self._results', 'self.states.state_stack', 'self.states.callstack', 'self.textlen'],
+             ensures=['len(self.states.state_stack) == 1', 'len(self.states.callstack) == 0',
+                      'spec_frame_wf(self.states.state_stack[-1])', 'self.states.state_stack[-1].cursor.len == self.textlen'],
              note='allocates the memo tables (BoundedDict) and a fresh state stack of one frame; C10 checks the idle state in a bounded run')
     contract(reg, f'{K}:ParserCore._reset', ['C11', 'C10'], {'self': 'Ctx'}, ret='None', wf=False,
-             modifies=['self._memos', 'self._results', 'self.states.state_stack', 'self.states.callstack', 'self.keywords', 'self.semantics'],
+             modifies=['self._memos', 'self._results', 'self.states.state_stack', 'self.states.callstack', 'self.keywords', 'self.semantics', 'self.textlen'],
              ensures=[('property', 'implies(not self._active_config.ignorecase, self.keywords == self._active_config.keywords)'),
                       # under ignorecase the table holds exactly the upper-cased keywords (C11: compared case-insensitively)
                       ('local', 'implies(self._active_config.ignorecase, forall_keys(self.keywords, lambda k: '
                                    'implies(k in self._active_config.keywords, k.upper() in self.keywords)))'),
                       ('local', 'implies(self._active_config.ignorecase, forall_keys(self.keywords, lambda s: implies(s in self.keywords, '
                                    'exists_key(self.keywords, lambda k: k in self._active_config.keywords and k.upper() == s))))'),
-                      'len(self.states.state_stack) == 1', 'len(self.states.callstack) == 0'])
+                      'len(self.states.state_stack) == 1', 'len(self.states.callstack) == 0',
+                      'spec_frame_wf(self.states.state_stack[-1])', 'self.states.state_stack[-1].cursor.len == self.textlen'])
